@@ -46,6 +46,7 @@ Init == i = 1
 Next == i < Len(Cases) /\ i' = i + 1
 Tell == LET c == Cases[i]  j == Judge(c) IN
         PrintT(ToJson([id |-> c.id, conn |-> j.conn, term |-> j.term]))
-\* forest sanity of the logged projection itself: every walk to the root ends within the number of entries
-Acyclic == LET c == Cases[i] IN \A n \in DOMAIN c.par : Len(Chain(c, n)) <= NPar(c) + 1
+\* sanity of the logged projection itself: the walks from the two frames of the query end at a root within
+\* the number of entries (a parent map with a cycle on them is not a forest: the drivers never ask for one)
+Acyclic == LET c == Cases[i] IN Len(Chain(c, c.a)) <= NPar(c) + 1 /\ Len(Chain(c, c.b)) <= NPar(c) + 1
 =============================================================================
